@@ -2380,7 +2380,8 @@ mod c07 {
                 if targeted && !is_kept {
                     kani::assert(after.is_none(), "C07.sessions.ghost.targeted_sessions_dropped");
                 } else {
-                    let expire = is_kept && (targeted || !pase);
+                    // the kept session is only marked expired if it is one of the targeted sessions (fix 27ff100)
+                    let expire = is_kept && targeted;
                     kani::assert(after == Some((mode, expired || expire)), "C07.sessions.ghost.others_unchanged_kept_expired");
                 }
             }
